@@ -197,6 +197,11 @@ def check_parsers(ctx, ir0, feat, base0):
             node = ast.parse(src).body[0]
         except Exception:
             continue
+        if kind == "class" and len(node.body) > 1 and feat["n_params"] % 2 == 1:
+            # a class WITHOUT a docstring (hand-written config classes often have none)
+            node.body = node.body[1:]
+            src = ast.unparse(node)
+            ctx.event("parse_twice:class_without_docstring")
         before = ast.dump(node)
         try:
             a = parse_kind_node(kind, node)
